@@ -9,17 +9,17 @@ import (
 // of the operands' states for that period (lead / overlap / gap / tail); periods neither operand
 // has are unset; operands are not modified.
 //
-//zx:harness prop=C05 id=C05.M1 tier=quick env=sum shard=e:2,res:2,nA:4,nB:3 ne=2 quick.spread=2 quick.tbspan=1 quick.NB=2 N=3 thorough.ne=4 thorough.N=4 thorough.shard=e:4,res:3,nA:4 thorough.nres=3
+//zx:harness prop=C05 id=C05.M1 tier=quick env=sum shard=e:2,res:2,nA:4,nB:3 ne=2 quick.spread=2 quick.tbspan=1 quick.NB=2 N=3 thorough.ne=4 thorough.N=4 thorough.NB=3 thorough.spread=3 thorough.tbspan=2 thorough.nres=3 thorough.shard=e:4,res:3,nA:5,nB:4,hasTB:2
 func zxC05Merge() { zxMergeCore(true) }
 
 // C04.M — Merge never modifies its operands (freeze monitor only).
 //
-//zx:harness prop=C04 id=C04.M tier=quick env=sum shard=res:2,nA:4,nB:3 ne=1 quick.spread=2 quick.tbspan=1 quick.NB=2 N=3 thorough.ne=4 thorough.N=4 thorough.shard=e:4,res:3,nA:4 thorough.nres=3
+//zx:harness prop=C04 id=C04.M tier=quick env=sum shard=res:2,nA:4,nB:3 ne=1 quick.spread=2 quick.tbspan=1 quick.NB=2 N=3 thorough.ne=4 thorough.N=4 thorough.NB=3 thorough.spread=3 thorough.tbspan=2 thorough.nres=3 thorough.shard=e:4,res:3,nA:5,nB:4
 func zxC04Merge() { zxMergeCore(false) }
 
 // C14.M — Merge keeps every in-window period of both operands (same oracle as C05.M1, one layout).
 //
-//zx:harness prop=C14 id=C14.M tier=quick env=sum shard=res:2,nA:4,nB:3 ne=1 quick.spread=2 quick.tbspan=1 quick.NB=2 N=3 thorough.ne=2 thorough.N=4 thorough.shard=e:2,res:3,nA:4 thorough.nres=3
+//zx:harness prop=C14 id=C14.M tier=quick env=sum shard=res:2,nA:4,nB:3 ne=1 quick.spread=2 quick.tbspan=1 quick.NB=2 N=3 thorough.ne=2 thorough.N=4 thorough.NB=3 thorough.spread=3 thorough.tbspan=2 thorough.nres=3 thorough.shard=e:2,res:3,nA:5,nB:4
 func zxC14Merge() { zxMergeCore(true) }
 
 func zxMergeCore(oracle bool) {
@@ -70,7 +70,7 @@ func zxMergeCore(oracle bool) {
 
 // C05.M2 — Merge is commutative in value.
 //
-//zx:harness prop=C05 id=C05.M2 tier=quick env=sum shard=e:2,res:2,nA:3 ne=2 thorough.ne=4 N=2 thorough.N=3 thorough.nres=3 thorough.shard=e:4,res:3
+//zx:harness prop=C05 id=C05.M2 tier=quick env=sum shard=e:2,res:2,nA:3 ne=2 N=2 thorough.ne=4 thorough.N=3 thorough.nres=3 thorough.shard=e:4,res:3,nA:4,nB:4
 func zxC05MergeComm() {
 	l := zxLayoutFor()
 	res := zxRes()
@@ -99,7 +99,7 @@ func zxC05MergeComm() {
 
 // C05.M3 — Merge is associative in value (three sequences; real mode: sums up to reassociation).
 //
-//zx:harness prop=C05 id=C05.M3 tier=quick mode=real env=sum shard=e:2,res:2,nA:2 ne=2 thorough.ne=4 N=1 thorough.N=2 thorough.nres=3 thorough.shard=e:4,res:3,nA:3
+//zx:harness prop=C05 id=C05.M3 tier=quick mode=real env=sum shard=e:2,res:2,nA:2 ne=2 N=1 thorough.ne=4 thorough.N=2 thorough.nres=3 thorough.shard=e:4,res:3,nA:3,nB:3,nC:3
 func zxC05MergeAssoc() {
 	l := zxLayoutFor()
 	res := zxRes()
@@ -132,7 +132,7 @@ func zxC05MergeAssoc() {
 // With asOf' = asOf rounded down and until' = until rounded down on the sequence's own grid:
 // a period ending at t is kept with identical bytes iff asOf' < t <= until' (zero bounds = open).
 //
-//zx:harness prop=C05+C07+C14 id=T tier=quick env=sum shard=e:2,res:2,nA:4 ne=2 quick.margin=1 thorough.ne=4 N=3 thorough.N=5 thorough.nres=3 thorough.shard=e:4,res:3,nA:6
+//zx:harness prop=C05+C07+C14 id=T tier=quick env=sum shard=e:2,res:2,nA:4 ne=2 quick.margin=1 N=3 thorough.ne=4 thorough.N=5 thorough.margin=2 thorough.nres=3 thorough.shard=e:4,res:3,nA:6,hasAsOf:2,hasUntil:2
 func zxC05Truncate() {
 	l := zxLayoutFor()
 	res := zxRes()
